@@ -14,6 +14,7 @@ import (
 	"net"
 	"os"
 	"runtime"
+	"sync/atomic"
 	"syscall"
 	"time"
 	"unsafe"
@@ -281,7 +282,15 @@ func (p *poller) readWriteLoop() {
 					if ev.Events&epollEventsRead != 0 {
 						if g.onRead == nil {
 							if asyncReadEnabled {
+								if ev.Events&epollEventsError != 0 {
+									// the peer has hung up: the read task delivers
+									// what it sent before that and closes.
+									atomic.StoreInt32(&c.hungup, 1)
+								}
 								c.AsyncRead()
+								if ev.Events&epollEventsError != 0 {
+									continue
+								}
 							} else {
 								maxReadTimes := g.MaxConnReadTimesPerEventLoop
 								if ev.Events&epollEventsError != 0 {
